@@ -3,7 +3,7 @@
    -?[0-9]+, symbol tables, same-base consistency, defaults), Units.__str__ and parse_unitvalue.  float() / str(float) are not
    modelled: they are section parameters with Python's documented round-trip guarantee as hypotheses. *)
 From Coq Require Import NArith ZArith List Lia Bool.
-From Verif Require Import Num Units ReactionText ReactionTextFacts UnitText UnitTextFacts.
+From Verif Require Import Num Units ReactionText ReactionTextFacts UnitText UnitTextFacts UnitTable UnitTableFacts.
 
 (* printing any unit - any of the 1100 systems, any exponents in Z^3 - and parsing the text back gives the same exponents and
    the same base unit for every non-zero exponent (Units.__eq__) *)
@@ -38,6 +38,23 @@ Print Assumptions C18_division.
 Theorem C18_exponent_text : forall z, strict_exp_text (print_int z) = true /\ parse_int (print_int z) = Some z.
 Proof. intro z. split; [apply print_int_strict|apply parse_print_int]. Qed.
 Print Assumptions C18_exponent_text.
+
+(* the code's own unit tables (Model/UnitTable.v: `_units_conversion_dict` and `_units_labels_dict` of units.py, re-read from the
+   source on every run by harness/translate_units.py, number literals with their decimal meaning): every symbol of the code is a
+   symbol of the model, of the same base kind, with exactly the code's factor; the label lists are the tables' keys, the molar and
+   litre labels are molar and litre symbols of the model; the model has no symbol the code does not list; no spelling is listed
+   under two bases *)
+Theorem C18_code_tables_agree : code_tables_ok = true.
+Proof. exact code_tables_agree. Qed.
+Print Assumptions C18_code_tables_agree.
+
+Theorem C18_model_has_no_other_symbol : model_symbols_listed = true.
+Proof. exact model_has_no_other_symbol. Qed.
+Print Assumptions C18_model_has_no_other_symbol.
+
+Theorem C18_symbols_have_one_meaning : code_symbols_unambiguous = true.
+Proof. exact code_symbols_one_meaning. Qed.
+Print Assumptions C18_symbols_have_one_meaning.
 
 (* text outside the grammar is rejected by the model: examples of every family of the statement (by computation) *)
 Open Scope N_scope.
